@@ -238,7 +238,7 @@ def shared_tree_events(rng, n):
             events.append(e)
             recipes[e["id"]] = {"kind": "tree", "tree": to_lit(t)}
             for d in docs:
-                for ev in c01.filter_events(len(events) + 1, obj, cterm, d, entries=("filter",)):
+                for ev in c01.filter_events(len(events) + 1, obj, cterm, d, entries=("filter", "test_all", "filter_src")):
                     events.append(ev)
                     recipes[ev["id"]] = {"kind": "treefilter", "tree": to_lit(t), "doc": to_lit(d)}
         except Unencodable:
